@@ -84,9 +84,9 @@ CHECKS['C10'] = dict(
     design='§5 C10')
 
 CHECKS['C19'] = dict(
-    technique='Lean 4 theorems about the packaging rule (segMatch_star_suffix, shipped_complete_iff, package_has_init, module_of_package_shipped) + the model evaluated on the file listing of the working tree vs a real offline wheel build + replays parsed from the unpacked wheel',
+    technique='Lean 4 theorems about the packaging rule (segMatch_star_suffix, shipped_complete_iff, package_has_init, module_of_package_shipped) + the model evaluated on the file listing of the working tree vs a real offline wheel build and sdist + replays parsed from the unpacked wheel',
     text='The packaging model (find_packages over __init__.py chains, package_data glob semantics, scripts) decides which files a build ships and which needed files (Python modules, definition files, CLI script) are missing; theorems give the glob/package rules and completeness as a decision. On every run the model is evaluated by the compiled driver on the listing of the working tree (about 6,600 files), a real wheel is built offline in a scratch copy and must ship exactly the model\'s set, and recordings plus one synthetic battle per bundled version are parsed from the unpacked wheel with the checkout off the path, digests compared with the checkout\'s.',
-    note='partial: setuptools / pip are external (model compared with a real build each run); sdist not built in the quick tier; the hypotheses are evaluated on the extracted listing by compiled code, not by the kernel.',
+    note='partial: setuptools / pip are external (model compared with a real build each run); the sdist file list is checked in both tiers, a wheel built from the sdist is compared with the wheel built from the tree in the thorough tier; the hypotheses are evaluated on the extracted listing by compiled code, not by the kernel.',
     design='§5 C19')
 
 CHECKS['C13'] = dict(
